@@ -356,6 +356,7 @@ func cmdConc(args []string) error {
 	free := fs.Int("free", 20, "free-running scenarios")
 	combos := fs.Int("combos", 6, "call combinations per schedule set")
 	rounds := fs.Int("rounds", 1, "homogeneous passes per kind of operation (each deals every operation of the kind to 16 goroutines)")
+	lean := fs.Bool("lean", false, "only the reference pass and the free-running scenarios (the sequential passes are made by the run without the race detector)")
 	aloneOnly := fs.Bool("aloneonly", false, "internal: a fresh process that only runs operations alone, last operation first")
 	apart := fs.Int("apart", 0, "internal: with -aloneonly, the share of the operations this process runs")
 	aparts := fs.Int("aparts", 1, "internal: with -aloneonly, the number of shares")
@@ -401,7 +402,11 @@ func cmdConc(args []string) error {
 	}
 	// results of independent calls share no memory: the same call is made twice, everything reachable from the first
 	// result is overwritten, the second result must not change
-	for _, pr := range aliasProbes() {
+	probes := aliasProbes()
+	if *lean {
+		probes = nil
+	}
+	for _, pr := range probes {
 		fpb := astisub.VerifTablesFingerprint()
 		a, b := pr.mk(), pr.mk()
 		before := project.Digest(b)
@@ -414,7 +419,7 @@ func cmdConc(args []string) error {
 	}
 	// and once more in the opposite order: a call must not see what an earlier call of the same process left behind,
 	// whichever of two documents came first
-	for i := len(ops) - 1; i >= 0; i-- {
+	for i := len(ops) - 1; i >= 0 && !*lean; i-- {
 		fpb := astisub.VerifTablesFingerprint()
 		c := ops[i].mk()
 		d := c.run()
@@ -423,7 +428,10 @@ func cmdConc(args []string) error {
 	// and in fresh processes, each running one share of the operations in the opposite order: whatever a call leaves
 	// behind in package-level state for the rest of its process (a cache, a pool) reaches a given later call in this
 	// process but, with other neighbours there, not in the other one
-	const shares = 8
+	shares := 8
+	if *lean {
+		shares = 0
+	}
 	for k := 0; k < shares; k++ {
 		tmp := fmt.Sprintf("%s.alone%d", *out, k)
 		bin := os.Args[0]
